@@ -263,10 +263,13 @@ SAFE_BUILTINS = {
     "tuple": tuple, "range": range, "min": min, "max": max, "bool": bool, "int": int, "float": float, "sum": sum,
     "reversed": reversed, "filter": filter, "frozenset": frozenset, "abs": abs, "type": type, "object": object,
     "True": True, "False": False, "None": None, "unicode": str, "getattr": getattr, "hasattr": hasattr, "setattr": setattr, "super": super,
+    "staticmethod": staticmethod, "classmethod": classmethod, "property": property, "callable": callable, "id": id,
+    "DeprecationWarning": DeprecationWarning, "UserWarning": UserWarning, "Warning": Warning, "NotImplementedError": NotImplementedError, "OverflowError": OverflowError,
+    "ZeroDivisionError": ZeroDivisionError, "RuntimeError": RuntimeError, "OSError": OSError, "IOError": IOError, "ImportError": ImportError,
     "KeyError": KeyError, "TypeError": TypeError, "ValueError": ValueError, "IndexError": IndexError, "Exception": Exception,
     "LookupError": LookupError, "AttributeError": AttributeError, "StopIteration": StopIteration,
 }
-EXT_OK = ("re", "fractions", "itertools", "collections", "numbers", "operator", "functools", "math")
+EXT_OK = ("re", "fractions", "itertools", "collections", "numbers", "operator", "functools", "math", "warnings")
 ERR_CLASSES = ("ValidationError", "SchemaError")
 
 HIER = {
@@ -291,6 +294,7 @@ class Obj:
     """An instance of a package class: its attribute dictionary; methods and class attributes come from the class's AST.
     The container protocol is forwarded to the class's own dunder methods (evaluated by the interpreter that made it)."""
     ev = None
+    klass = None        # the ClsRef it was made by, when that is a class defined inside a function
 
     def __init__(self, cls, attrs=None, label=""):
         self.cls = cls
@@ -299,6 +303,17 @@ class Obj:
 
     def __repr__(self):
         return "<%s %s>" % (self.cls.name, self.label)
+
+    def __getattr__(self, name):
+        # plain Python code (the rules, library callables) reading an attribute of an interpreted object
+        if name.startswith("__") or self.__dict__.get("ev") is None and Obj.ev is None:
+            raise AttributeError(name)
+        try:
+            return (self.__dict__.get("ev") or Obj.ev).obj_getattr(self, name)
+        except PyRaise as pr:
+            if pr.name == "AttributeError":
+                raise AttributeError(name)
+            raise
 
     def _dunder(self, name, *args):
         if self.ev is None:
@@ -319,8 +334,59 @@ class Obj:
 
     def __contains__(self, k):
         if self.ev is not None and self.ev.find_method(self.cls, "__contains__") is None:
+            if self.ev.find_method(self.cls, "__getitem__") is not None:
+                # collections.abc.Mapping.__contains__: try self[key]
+                try:
+                    self._dunder("__getitem__", k)
+                    return True
+                except PyRaise as pr:
+                    if pr.name == "KeyError":
+                        return False
+                    raise
             return any(x == k for x in self.__iter__())
         return bool(self._dunder("__contains__", k))
+
+    # collections.abc.MutableMapping mixin methods, in terms of the class's own __getitem__/__setitem__/__delitem__/__iter__
+    def _mixin(self, name):
+        if self.ev is None or self.ev.find_method(self.cls, "__getitem__") is None or self.ev.find_method(self.cls, "__iter__") is None:
+            return None
+
+        def get(k, d=None):
+            try:
+                return self[k]
+            except PyRaise as pr:
+                if pr.name == "KeyError":
+                    return d
+                raise
+
+        def update(*args, **kw):
+            for other in args:
+                if hasattr(other, "keys"):
+                    for k in list(other.keys()):
+                        self[k] = other[k]
+                else:
+                    for k, v in other:
+                        self[k] = v
+            for k, v in kw.items():
+                self[k] = v
+
+        def setdefault(k, d=None):
+            if k in self:
+                return self[k]
+            self[k] = d
+            return d
+
+        def pop(k, *d):
+            if k in self:
+                v = self[k]
+                del self[k]
+                return v
+            if d:
+                return d[0]
+            raise PyRaise("KeyError", repr(k))
+        table = {"get": get, "update": update, "setdefault": setdefault, "pop": pop,
+                 "keys": lambda: list(iter(self)), "items": lambda: [(k, self[k]) for k in iter(self)], "values": lambda: [self[k] for k in iter(self)]}
+        return table.get(name)
 
     def __iter__(self):
         return iter(self._dunder("__iter__"))
@@ -336,33 +402,47 @@ class Obj:
 
 
 class ClsRef:
-    def __init__(self, ev, cls):
+    """A class object.  For a class defined inside a function (create()'s Validator) every execution of the `class` statement
+    makes its own ClsRef: `closure` holds the defining call's variables, `vals` the class attributes evaluated then."""
+    def __init__(self, ev, cls, closure=None, vals=None):
         self.ev = ev
         self.cls = cls
+        self.closure = closure
+        self.vals = vals            # None: a module-level class (attributes evaluated lazily, once per interpreter)
 
     def __call__(self, *args, **kwargs):
         o = Obj(self.cls)
         o.ev = self.ev
+        o.klass = self
         init = self.ev.find_method(self.cls, "__init__")
         if init is None:
+            if self.ev.attrs_construct(o, args, kwargs):
+                return o
             if args or kwargs:
                 raise Undecided("construction of %s without an __init__ in the package" % self.cls.name)
             return o
-        self.ev.call_func(init, [o] + list(args), kwargs)
+        self.ev.call_func(init, [o] + list(args), kwargs, closure=self.closure)
         return o
+
+    def __eq__(self, other):
+        return other is self or (isinstance(other, ClsRef) and self.vals is None and other.vals is None and other.cls is self.cls)
+
+    def __hash__(self):
+        return hash(self.cls.qual) if self.vals is None else id(self)
 
     def __repr__(self):
         return "<class %s>" % self.cls.name
 
 
 class BoundMethod:
-    def __init__(self, ev, func, recv):
+    def __init__(self, ev, func, recv, closure=None):
         self.ev = ev
         self.func = func
         self.recv = recv
+        self.closure = closure
 
     def __call__(self, *args, **kwargs):
-        return self.ev.call_func(self.func, [self.recv] + list(args), kwargs)
+        return self.ev.call_func(self.func, [self.recv] + list(args), kwargs, closure=self.closure)
 
 
 class _Super:
@@ -381,7 +461,66 @@ class Ev:
         self.clsvals = {}
         self.real_errors = real_errors      # True: ValidationError(...) instantiates the package's own class
 
+    def preset(self, modname, name, value):
+        """Fix the value of a module-level binding (e.g. replace a class built from a bundled file by a stub)."""
+        mod = self.prog.mods[modname]
+        r = self.prog.resolve_name(mod, name)
+        if not (isinstance(r, tuple) and r[0] == "expr"):
+            raise Undecided("cannot preset %s.%s" % (modname, name))
+        self.modvals[id(r[2])] = value
+
+    def module_value(self, modname, name):
+        return self.resolved(self.prog.resolve_name(self.prog.mods[modname], name), name)
+
     # ------------------------------------------------------------------ objects
+    def attrs_construct(self, o, args, kwargs):
+        """An attrs class (@attr.s, fields `_x = attr.ib(default=..., converter=...)`): the generated __init__ takes each field
+        under its name without the leading underscore, applies default and converter, and stores it."""
+        c = o.cls
+        decos = [norm(d) for d in getattr(c.node, "decorator_list", [])]
+        if not any(d.startswith("attr.s") or d.startswith("attr.attrs") or d.startswith("attr.define") for d in decos):
+            return False
+        fields = []
+        for name, e in c.attrs.items():
+            if isinstance(e, ast.Call) and norm(e.func) in ("attr.ib", "attr.attrib", "attr.field"):
+                fields.append((name, e))
+        args = list(args)
+        kwargs = dict(kwargs)
+        for name, e in fields:
+            arg = name.lstrip("_")
+            kw = {k.arg: k.value for k in e.keywords}
+            if args:
+                v = args.pop(0)
+            elif arg in kwargs:
+                v = kwargs.pop(arg)
+            elif "default" in kw:
+                v = self.expr(kw["default"], {}, _ModScope(c.mod))
+            elif "factory" in kw:
+                v = self.expr(kw["factory"], {}, _ModScope(c.mod))()
+            else:
+                raise PyRaise("TypeError", "missing argument %s" % arg)
+            if "converter" in kw:
+                v = self.native(self.expr(kw["converter"], {}, _ModScope(c.mod)), v)
+            o.attrs[name] = v
+        if args or kwargs:
+            raise PyRaise("TypeError", "unexpected arguments for %s" % c.name)
+        return True
+
+    def attr_evolve(self, o, **changes):
+        if not isinstance(o, Obj):
+            raise Undecided("attr.evolve of a non-object")
+        new = Obj(o.cls, dict(o.attrs), o.label)
+        new.ev, new.klass = o.ev, o.klass
+        for k, v in changes.items():
+            tgt = "_" + k if ("_" + k) in o.attrs else k
+            e = o.cls.attrs.get(tgt)
+            if isinstance(e, ast.Call):
+                kw = {x.arg: x.value for x in e.keywords}
+                if "converter" in kw:
+                    v = self.native(self.expr(kw["converter"], {}, _ModScope(o.cls.mod)), v)
+            new.attrs[tgt] = v
+        return new
+
     def mro(self, cls):
         out, todo = [], [cls]
         while todo:
@@ -417,9 +556,21 @@ class Ev:
             self.clsvals[ck] = self.expr(c.attrs[name], {}, _ModScope(c.mod))
         return self.clsvals[ck]
 
+    def _unwrap(self, v, recv_cls):
+        if isinstance(v, staticmethod):
+            return v.__func__
+        if isinstance(v, classmethod):
+            f = v.__func__
+            return BoundMethod(self, f.func, recv_cls, closure=f.closure) if isinstance(f, FuncRef) else f
+        return v
+
     def obj_getattr(self, o, name, after=None):
         if after is None and name in o.attrs:
             return o.attrs[name]
+        k = o.klass
+        clo = k.closure if k is not None else None
+        if after is None and k is not None and k.vals is not None and name in k.vals and name not in o.cls.methods:
+            return self._unwrap(k.vals[name], k)
         chain = self.mro(o.cls)
         if after is not None and after in chain:
             chain = chain[chain.index(after) + 1:]
@@ -428,12 +579,12 @@ class Ev:
                 m = c.methods[name]
                 decos = [norm(d) for d in m.decorators]
                 if "property" in decos:
-                    return self.call_func(m, [o], {})
+                    return self.call_func(m, [o], {}, closure=clo)
                 if "classmethod" in decos:
-                    return BoundMethod(self, m, ClsRef(self, o.cls))
+                    return BoundMethod(self, m, k if k is not None else ClsRef(self, o.cls), closure=clo)
                 if "staticmethod" in decos:
-                    return FuncRef(self, m)
-                return BoundMethod(self, m, o)
+                    return FuncRef(self, m, closure=clo)
+                return BoundMethod(self, m, o, closure=clo)
             if name in c.attrs:
                 return self.class_attr(c, name, o)
             if name in c.aliases:
@@ -446,6 +597,10 @@ class Ev:
             return lambda *a, **k: None
         if name == "__class__":
             return ClsRef(self, o.cls)
+        if any("Mapping" in norm(b) for c in self.mro(o.cls) for b in getattr(c.node, "bases", [])):
+            m = o._mixin(name)
+            if m is not None:
+                return m
         raise PyRaise("AttributeError", "%s has no attribute %s" % (o.cls.name, name))
 
     # ------------------------------------------------------------------ functions
@@ -631,6 +786,30 @@ class Ev:
             if nested is None:
                 raise Undecided("nested def %s" % st.name)
             env[st.name] = FuncRef(self, nested, closure=env)
+        elif isinstance(st, ast.ClassDef):
+            nested = func.nested.get(st.name) if func is not None else None
+            if not isinstance(nested, Cls) and func is not None:
+                try:
+                    nested = self.prog.cls("%s.%s" % (func.qual, st.name))
+                except Exception:
+                    nested = None
+            if not isinstance(nested, Cls):
+                raise Undecided("nested class %s" % st.name)
+            ref = ClsRef(self, nested, closure=env, vals={})
+            body_env = {"__closure__": env}
+            for b in st.body:
+                if isinstance(b, ast.Assign):
+                    v = self.expr(b.value, body_env, func)
+                    for t in b.targets:
+                        if isinstance(t, ast.Name):
+                            body_env[t.id] = v
+                            ref.vals[t.id] = v
+                elif isinstance(b, (ast.FunctionDef, ast.Expr, ast.Pass)):
+                    if isinstance(b, ast.FunctionDef) and b.name in nested.methods:
+                        body_env[b.name] = FuncRef(self, nested.methods[b.name], closure=env)
+                else:
+                    raise Undecided("class body statement %s" % type(b).__name__)
+            env[st.name] = ref
         elif isinstance(st, ast.Assert):
             if not self.truth(self.expr(st.test, env, func)):
                 raise PyRaise("AssertionError")
@@ -642,6 +821,13 @@ class Ev:
                     self.native(lambda c, k: c.__delitem__(k), self.expr(t.value, env, func), self.expr(t.slice, env, func))
                 else:
                     raise Undecided("del target")
+        elif isinstance(st, ast.Import):
+            for a in st.names:
+                top = a.name.split(".")[0]
+                if top in EXT_OK:
+                    env[a.asname or top] = importlib.import_module(a.name if a.asname else top)
+                else:
+                    env[a.asname or top] = _External(a.name)
         elif isinstance(st, ast.With):
             raise Undecided("with statement")
         else:
@@ -707,6 +893,8 @@ class Ev:
                 setattr(o, t.attr, v)
             elif isinstance(o, Obj):
                 o.attrs[t.attr] = v
+            elif isinstance(o, ClsRef) and o.vals is not None:
+                o.vals[t.attr] = v
             else:
                 raise Undecided("attribute store on %r" % type(o).__name__)
         else:
@@ -751,13 +939,24 @@ class Ev:
             if r.name in ERR_CLASSES and not self.real_errors:
                 return lambda message="", **kw: Err("own", message, kw.pop("context", ()), **kw)
             return ClsRef(self, r)
+        if isinstance(r, tuple) and r[0] == "ext" and r[1] in ("pyrsistent.pmap", "pyrsistent.m"):
+            return PMap
+        if isinstance(r, tuple) and r[0] == "ext" and r[1] == "attr.evolve":
+            return self.attr_evolve
+        if isinstance(r, tuple) and r[0] == "ext" and r[1] == "attr":
+            return _AttrModule(self)
         if isinstance(r, tuple) and r[0] == "ext":
             top = r[1].split(".")[0]
             if top not in EXT_OK and not r[1].startswith("urllib.parse"):
                 raise Undecided("external %s" % r[1])
             parts = r[1].split(".")
             obj = importlib.import_module(parts[0])
-            for p in parts[1:]:
+            for i, p in enumerate(parts[1:], 1):
+                if not hasattr(obj, p):
+                    try:
+                        importlib.import_module(".".join(parts[:i + 1]))
+                    except ImportError:
+                        raise Undecided("external %s" % r[1])
                 obj = getattr(obj, p)
             return obj
         if isinstance(r, tuple) and r[0] == "expr":
@@ -785,12 +984,14 @@ class Ev:
             if isinstance(o, _Super):
                 return self.obj_getattr(o.obj, e.attr, after=o.after)
             if isinstance(o, ClsRef):
+                if o.vals is not None and e.attr in o.vals and e.attr not in o.cls.methods:
+                    return self._unwrap(o.vals[e.attr], o)
                 m = self.find_method(o.cls, e.attr)
                 if m is not None:
                     decos = [norm(d) for d in m.decorators]
                     if "classmethod" in decos:
-                        return BoundMethod(self, m, o)
-                    return FuncRef(self, m)
+                        return BoundMethod(self, m, o, closure=o.closure)
+                    return FuncRef(self, m, closure=o.closure)
                 for c in self.mro(o.cls):
                     if e.attr in c.attrs:
                         return self.class_attr(c, e.attr, o)
@@ -1011,6 +1212,65 @@ class Ev:
         import operator
         table = {ast.Eq: operator.eq, ast.NotEq: operator.ne, ast.Lt: operator.lt, ast.LtE: operator.le, ast.Gt: operator.gt, ast.GtE: operator.ge}
         return self.native(table[type(op)], a, b)
+
+
+class PMap(dict):
+    """Stand-in for pyrsistent.pmap: a mapping whose update/set/remove/discard return a new map and leave the receiver alone."""
+    def __init__(self, initial=()):
+        dict.__init__(self, initial)
+
+    def update(self, *others, **kw):
+        new = PMap(self)
+        for o in others:
+            dict.update(new, o)
+        dict.update(new, kw)
+        return new
+
+    def set(self, k, v):
+        new = PMap(self)
+        dict.__setitem__(new, k, v)
+        return new
+
+    def remove(self, k):
+        if k not in self:
+            raise KeyError(k)
+        new = PMap(self)
+        dict.__delitem__(new, k)
+        return new
+
+    def discard(self, k):
+        return self.remove(k) if k in self else self
+
+    def __setitem__(self, k, v):
+        raise TypeError("a persistent map does not support item assignment")
+
+    def __delitem__(self, k):
+        raise TypeError("a persistent map does not support item deletion")
+
+    def __hash__(self):
+        return id(self)
+
+
+class _AttrModule:
+    def __init__(self, ev):
+        self._ev = ev
+
+    def __getattr__(self, name):
+        if name == "evolve":
+            return self._ev.attr_evolve
+        raise Undecided("attr.%s" % name)
+
+
+class _External:
+    """A library outside the evaluated fragment (network, optional dependency): it may be named, never used."""
+    def __init__(self, name):
+        self._name = name
+
+    def __bool__(self):
+        raise Undecided("use of the external library %s" % self._name)
+
+    def __getattr__(self, attr):
+        raise Undecided("use of the external library %s" % self._name)
 
 
 class _ModScope:
